@@ -27,11 +27,11 @@ class C03(Cfg):
                   "with unique row ids, no stored row carrying a deletion record (C11), a signature standing for the record it signs, and members holding every right (C03_refines_pull); without the log hypothesis "
                   "the pull is the sequence of joins with the days whose daily hash differs. The same equation with the room-scoped deletion and the batches keyed by row id LEFT AS IN THE CODE, as conditions on the data: "
                   "rows keep their room, the source holds no two deletion records of one row on one day (C03_refines_pull_code; the puller afterwards again satisfies C11's invariant and the room condition). "
-                  "What separates the code with #18 repaired from this equation: the room summary of one entity, members without the all-rows right (#19), the daily-log findings of C09. "
+                  "What separates the code as it is (#18 repaired) from this equation: the room summary of one entity, members without the all-rows right (#19), the daily-log findings of C09. "
                   "NOT proved: that these hypotheses are re-established after every pull inside one induction over schedules (pieces exist: C09_model_*, C11_invariant), the references, members with the own-rows right only (#19), "
                   "and the partial convergence theorem for the code as it is. For the code as it is statement C03 is refuted by decide-checked model traces, each replayed on real instances: "
                   "right required depends on the local author (#19), references fetched only for winning rows and absent from the daily hash (#30), deletion records of one answer keyed by row id (new), "
-                  "room summary comparing the first entity only (new), converged state depending on the pull order because ingestion ignores deletion records (#18). "
+                  "room summary comparing the first entity only (new); and, for the code before the repair of #18, converged state depending on the pull order because ingestion ignored deletion records (regression witness). "
                   "The executable model (Defects.asImplemented) is tied to /repo by running both on the same generated multi-peer histories and comparing all tables of all peers after every op.")
     level_note = ("Trusted: Lean kernel (+propext, Classical.choice, Quot.sound), the hand-written model lean/DiscretModel/Model/Sync.lean (+DailyLog.lean) and the harness. "
                   "Modelled and exercised: synchronise_room / synchronise_day, process_inbound's data queries, filter_existing, add_nodes/validate_node, add_edges, delete_nodes, delete_edges, the daily log. "
